@@ -45,7 +45,7 @@ impl Default for CaseCfg {
             allow_normalization: true,
             trivia: true,
             force_opts: None,
-            exclude_id_var_rust: true,
+            exclude_id_var_rust: false,
         }
     }
 }
@@ -87,10 +87,7 @@ pub fn build_base(t: &mut Tape, cfg: &CaseCfg, stats: &mut GenStats) -> Option<B
     // --- schema rendering
     let has_one_of = schema.inputs.iter().any(|i| i.one_of);
     let want_json = cfg.allow_json && t.chance(30);
-    if want_json && has_one_of {
-        stats.excluded_json_one_of += 1;
-    }
-    let use_json = want_json && !has_one_of;
+    let use_json = want_json;
     let (schema_text, schema_ext) = if use_json {
         let st = JsonStyle {
             wrapped_in_data: t.chance(50),
@@ -99,7 +96,8 @@ pub fn build_base(t: &mut Tape, cfg: &CaseCfg, stats: &mut GenStats) -> Option<B
             include_directives: t.chance(70),
             order: if t.chance(30) { t.u64() | 1 } else { 0 },
             keep_kind_order: true,
-            include_is_one_of: t.chance(50),
+            // the answer to the one-of introspection query; without it @oneOf is not in the input
+            include_is_one_of: { let c = t.chance(50); c || has_one_of },
             pretty: t.chance(30),
         };
         (schema.to_introspection_text(&st), "json".to_string())
